@@ -54,7 +54,7 @@ def gen_design(r, ncells=None, nlibs=None):
                 tl, tc = r.choice(cells)
                 props = []
                 for q in range(r.choice([0, 0, 1, 2])):
-                    t = r.choice(["string", "integer", "boolean"])
+                    t = r.choice(["string", "integer", "boolean"])      # C05's quantifier: string/integer/boolean (number types: see DESIGN 7)
                     v = {"string": r.choice(["8'hA5", "soft lut", "", "x(y)"]), "integer": r.choice([0, 7, -3, 123456789012]),
                          "boolean": r.choice([True, False])}[t]
                     props.append((namedef("PROP", 0.3), t, v))
@@ -110,7 +110,7 @@ def expected(design):
             for i in C["insts"]:
                 props = []
                 for nd, t, v in i["props"]:
-                    d = {"identifier": nd[0], "value": v}
+                    d = {"identifier": nd[0], "value": (v[0] * 10.0 ** v[1]) if t == "number_e" else v}
                     if nd[1] is not None:
                         d["original_identifier"] = nd[1]
                     props.append(d)
